@@ -127,6 +127,8 @@ pub struct Cx<'a> {
     pub canonical: bool,
     /// thorough tier: more expensive variants of the observers
     pub deep: bool,
+    /// `find` observer: also walk the sides of every view returned by `TrieViewMut::find`
+    pub deep_find_sides: bool,
 }
 
 pub fn obs<P: PType>(p: &P, v: &u32) -> Obs {
